@@ -54,9 +54,17 @@ def ser(obj, container):
 
 
 def build(case):
-    inner = {"allowed": [torch.tensor([1.0, 2.0]), {"w": torch.zeros(2)}], "sink": R(verif_sink.hit, ("nested",)),
+    inner = {"sinkinst": None, "allowed": [torch.tensor([1.0, 2.0]), {"w": torch.zeros(2)}], "sink": R(verif_sink.hit, ("nested",)),
              "dangerous": R(os.getpid, ()), "mlonly": [__import__("datetime").date, __import__("fractions").Fraction]}[case["inner"]]
     chain = case["chain"]
+    if case["inner"] == "sinkinst":       # raw bytes: only a bare (pickle.loads-style) innermost level can carry them
+        raw = b"(S'nested'\niverif_sink\nhit\n."
+        if chain and chain[-1][1] != "bare":
+            raise ValueError("INST payload needs a bare innermost level")
+        obj = raw
+        for k, (w, c) in enumerate(reversed(chain)):
+            obj = R(WRAP[w], (obj if k == 0 else ser(obj, c),))
+        return obj if not chain else ser(obj, "bare")
     obj = inner
     # serialise from the inside out: level i+1 in container chain[i][1], handed to wrapper chain[i][0]
     for w, c in reversed(chain):
